@@ -14,14 +14,14 @@ THEOREMS = ["table_complete", "table_nil_tolerant", "validator_shape", "validato
             "validate_panics_iff", "validate_iff_nopanic", "query_api_covered", "alias_sites_ok", "api_symbols_seen",
             "incomplete_table_witness", "map_element_public_iff", "map_element_public_iff_code", "composite_not_inherited",
             "explicit_element_marking", "validate_own_assignment", "isPublic_own_assignment", "child_nonpublic_rejected",
-            "parent_fallback_witness"]
+            "parent_fallback_witness", "keys_irrelevant", "isPublic_keys_irrelevant", "keyed_validate_iff", "key_lookup_witness"]
 TABLE_OBLIGATIONS = [
     "table_complete (Generated/AcceptTable.lean, regenerated from the Accept methods of ast/*.go: every node-valued field forwarded, every symbol announced, no unrecognised statement, no field that could hide a node — interface, map, channel or func-typed fields whose type mentions anything but basic types are listed as opaque and only the alias AnyOfSetExprNode.seekablePredicate is allowed)",
     "query_api_covered (Generated.queryApi / symbolVia: every method of queryNode in the exported interface ast.Query is a recognised accessor — getter, elements-of-slice getter, setter, adoption, construction from scalars, scalar getter, evaluation — over node-valued fields that Accept forwards; every Symbol() returns a symbol-holding string field or delegates to a child)",
     "alias_sites_ok (Generated.aliasSites: every write of an alias field in package ast is a composite literal that also sets the aliased child to the same node)",
     "table_nil_tolerant (the nil children the parser leaves are guarded / nil-safe receivers)",
     "validator_shape (publicSymbolValidator overrides VisitSymbol only, has no state besides store and err; every DefaultVisitor method is empty)",
-    "validator_good (Generated.validatorShape, the decision structure of BaseStore.IsPublicSymbol / publicSymbolValidator.VisitSymbol / ValidateSymbolsArePublic regenerated from boltz/store_query.go and boltz/validate.go, is a GoodShape: exact name or FIRST segment a listed MAP symbol, decided from the store's own publicSymbols / mapSymbols only — a tree that asks `store.parent` is not good; first offending symbol kept; one fresh validator walked over the whole query by query.Accept)",
+    "validator_good (Generated.validatorShape, the decision structure of BaseStore.IsPublicSymbol / publicSymbolValidator.VisitSymbol / ValidateSymbolsArePublic regenerated from boltz/store_query.go and boltz/validate.go, is a GoodShape: exact name or FIRST segment a listed MAP symbol, decided from the store's own publicSymbols / mapSymbols only, by NAME — a tree that asks `store.parent`, or looks anything up under a symbol's KEY (`mapSymbol.key`), is not good; first offending symbol kept; one fresh validator walked over the whole query by query.Accept)",
     "transform_facts (every node shape the modelled typing transformation builds is one the regenerated table describes: fields exist, single-valued children exactly those it fills; built and consumed kinds hold no symbol in their own strings except the symbol kinds, which keep it in `symbol` and announce it; SortByNode has only slice children, NullConstNode none)",
 ]
 
@@ -40,7 +40,10 @@ RULE = ("one case = one real tree x one public/non-public assignment. Trees: (p)
         "single-non-public and random ones), other symbols random. Stores: the validating store has no parent, or (every 4th/5th "
         "case again) is a child / grandchild store built with StoreDefinition.Parent + GrantSymbols whose own assignment is the "
         "case's while its ancestors expose everything / nothing / the complement / a random set, granted before or after "
-        "(child set = inherited + own). non-trivial = the tree references at least one symbol; "
+        "(child set = inherited + own). Naming: every 3rd case again against a store (and every 12th against a child / "
+        "grandchild of such a store) whose map, scalar and fk symbols are stored under keys that are the names of other symbols "
+        "(three schemas: maps swapped, map keys = scalar names, map keys = names of always-public symbols), so that public maps "
+        "have keys naming non-public symbols and vice versa; names and keys are read off the real stores. non-trivial = the tree references at least one symbol; "
         "distinct = (tree, set of referenced non-public symbols)")
 
 DIAG = ("tree-changed", "symtab-changed", "cfg-mismatch", "parse-error", "unbuildable", "bad-case", "not-a-", "hidden-node", "panic-mismatch",
@@ -56,6 +59,19 @@ def _unname(x):
         return bytes.fromhex(x[1:]).decode("utf-8", "replace")
     except ValueError:
         return x
+
+
+def _entries(field):
+    """one store's <maps> field `name[=key],…[;name[=key],…]` -> (map (name, key) pairs, other symbols' (name, key) pairs)"""
+    parts = (field.split(";") + [""])[:2]
+    out = []
+    for part in parts:
+        l = []
+        for e in _names(part):
+            n, _, k = e.partition("=")
+            l.append((n, k or n))
+        out.append(l)
+    return out[0], out[1]
 
 
 def parse_impl(a):
@@ -189,8 +205,13 @@ def describe(case, impl, model, spec):
                   "u": "untyped listener tree, traversal only",
                   "a": "query assembled through the exported API (ast.Parse, SetPredicate, AdoptSortFields, NewAndExprNode, …) + ValidateSymbolsArePublic"}.get(f[0], f[0]),
          "public_symbols": [_unname(x) for x in _names(f[3].split("^")[0])] if len(f) > 3 else None,
-         "map_symbols": [_unname(x) for x in _names(f[2].split("^")[0])] if len(f) > 2 else None,
+         "map_symbols": [_unname(n) for n, _ in _entries(f[2].split("^")[0])[0]] if len(f) > 2 else None,
          "impl": impl, "model": model, "spec": spec, "case": case}
+    if len(f) > 2:
+        mk, sk = _entries(f[2].split("^")[0])
+        if any(n != k for n, k in mk + sk):
+            d["stored_under_key"] = {"map_symbols (name: key)": {_unname(n): _unname(k) for n, k in mk},
+                                     "other_symbols (name: key)": {_unname(n): _unname(k) for n, k in sk}}
     if len(f) > 3 and "^" in f[3]:
         # child store: the validating store is built with StoreDefinition.Parent; the stores up its parent chain
         # (nearest first) have public sets of their own ("+<mask>": made public before GrantSymbols to the child)
@@ -229,6 +250,7 @@ def run(ctx, replay_cases=None):
         "hypothesis Admissible: AllOfSetExprNode.name / AnyOfSetExprNode.name is announced by a node below (SetFunctionNode.MoveUpTree keeps the set symbol as left operand); checked on every parsed tree of the run, and the specification counts the name as referenced, so a transformation that lost it is reported",
         "the typing transformation (ast/node_convert.go transformTypes and every TypeTransform / TypeTransformBool method of node_convert.go, node_query.go, node_symbol.go, node_expr.go) is modelled as a deterministic function `transform` on the generic tree, directed by the symbol types (read off the real ast.SymbolTypes per parsed case: GetSymbolType / GetSetSymbolTypes), the regenerated interface table (type assertions), GetType constants and enumeration constants; shaped / nilOk / namesCovered / symbol preservation are theorems about the tree it builds (transform_good); that it builds the real typed tree is checked by exact tree equality on every parsed case; unmodelled (the function returns an error, which the correspondence would flag): strings.ToUpper beyond ASCII and of non-string constants under icontains, a set function over a sub-query in a comparison; independently the symbols of both real trees are compared and the specification judges against their union",
         "hypothesis pubWF: an element of a non-public map is not itself marked public (MakeSymbolPublic(\"tags.k\")); such configurations are generated, compared with the model, and excluded from the accept-iff judgement (theorem explicit_element_marking)",
+        "naming: a symbol's NAME (what publicSymbols / mapSymbols / symbols are keyed by and a query writes) and its stored KEY (AddMapSymbol(name, type, key), AddSymbolWithKey, AddFkSymbolWithKey) are separate in the model (PubCfg.mapKeys / symKeys, arbitrary lists; NameE.mapKey / symKey are the only expressions that read them) and in the harness (keyed schemas k1..k3, names and keys read off the real stores by reflection / GetPath()); 'public' is judged by names only; the keys of the stores up the parent chain are not carried into the model (a child registers inherited maps under their key, name = key, see notes)",
         "symbols inside a sub-query are validated against the outer store (the store passed to ValidateSymbolsArePublic), as the code does and the property says ('public for the store')",
         "typed nil pointers stored in interface-typed fields, nil slice elements and nil children in every position are generated (built trees, and recipes over the exported API: SetPredicate / NewAndExprNode / NewInt64BetweenOp with nil and typed-nil arguments, zero-value nodes); the model predicts exactly when validation panics (nil interface not guarded, nil receiver whose Accept reads a field, value receiver) and the implementation is compared with it; a panic outside the parser's nil positions is garbage-in and not counted against the property, but whenever validation returns it is judged for having seen every symbol",
         "what the Query interface hands out besides Accept — GetSortFields()[i].Symbol(), GetPredicate() — is observed on every case and compared with the model's reading of the regenerated accessor table (Generated.queryApi, symbolVia)",
@@ -272,7 +294,10 @@ def run(ctx, replay_cases=None):
     spec_bad, corr_bad, typing_bad = [], [], []
     keys = set()
     hist = {"tag": {}, "verdict": {}, "depth": {}, "referenced_symbols": {}, "non_public_referenced": {}, "kind": {},
-            "store_chain": {},
+            "store_chain": {}, "naming_schema": {},
+            "keyed_store": {"referenced_element_of_public_map_whose_key_is_not_public": 0,
+                            "referenced_element_of_non_public_map_whose_key_is_public": 0,
+                            "referenced_symbol_public_but_key_not_or_vice_versa": 0},
             "child_store": {"referenced_non_public_on_child_but_public_on_an_ancestor": 0,
                             "referenced_public_on_child_but_non_public_on_parent": 0},
             "hypotheses": {"nil_outside_parser_positions": 0, "element_marked_public_alone": 0, "name_not_covered": 0,
@@ -306,8 +331,23 @@ def run(ctx, replay_cases=None):
         cf = c.split(" ", 4)
         chain_pubs = cf[3].split("^") if len(cf) > 3 else [""]
         bump(hist["store_chain"], {1: "no parent", 2: "child of a parent", 3: "grandchild"}.get(len(chain_pubs), "deeper"))
+        mk_, sk_ = _entries(cf[2].split("^")[0]) if len(cf) > 2 else ([], [])
+        bump(hist["naming_schema"], cf[1].split(":")[0] if len(cf) > 1 and ":" in cf[1] else "name=key")
+        if any(n_ != k_ for n_, k_ in mk_ + sk_):
+            own = set(_names(chain_pubs[0]))
+            mkd, skd = dict(mk_), dict(sk_)
+            for x in sp["all"]:
+                raw = _unname(x)
+                base = ("x" + raw.split(".")[0].encode().hex()) if "." in raw else None
+                if base is not None and base in mkd:
+                    if base in own and mkd[base] not in own:
+                        hist["keyed_store"]["referenced_element_of_public_map_whose_key_is_not_public"] += 1
+                    if base not in own and mkd[base] in own:
+                        hist["keyed_store"]["referenced_element_of_non_public_map_whose_key_is_public"] += 1
+                elif x in skd and (x in own) != (skd[x] in own):
+                    hist["keyed_store"]["referenced_symbol_public_but_key_not_or_vice_versa"] += 1
         if len(chain_pubs) > 1:
-            maps = set(_names(cf[2].split("^")[0]))
+            maps = set(n for n, _ in _entries(cf[2].split("^")[0])[0])
             anc = [set(_names(p)) for p in chain_pubs[1:]]
 
             def pub_in(pubset, name):
@@ -352,6 +392,9 @@ def run(ctx, replay_cases=None):
         cs = hist["child_store"]
         ctx.obligation("generator reaches child stores (StoreDefinition.Parent, GrantSymbols) whose own public set differs from an ancestor's on a referenced symbol, in both directions",
                        min(cs.values()) > 0, ", ".join(f"{k}: {v}" for k, v in cs.items()))
+        ks = hist["keyed_store"]
+        ctx.obligation("generator reaches stores whose symbols are stored under keys that differ from their names, with a referenced element of a public map whose key is not public, of a non-public map whose key is public, and a plain symbol whose name and key differ in visibility",
+                       min(ks.values()) > 0, ", ".join(f"{k}: {v}" for k, v in ks.items()))
         ctx.coverage["kinds_reached"] = len(set(table_kinds) & seen_kinds)
         ctx.coverage["child_positions_reached"] = len(table_slots & seen_slots)
     try:
